@@ -119,12 +119,12 @@ func (sc *L1Scenario) c16Prefix() {
 }
 
 // runC16L1 builds one case; returns nil export when the round trip could not even be started.
-func runC16L1(seed uint64, id int, histLen, probeLen int, scripted bool, rep *Report) *c16L1Result {
+func runC16L1(seed uint64, id int, histLen, probeLen int, prefix func(sc *L1Scenario), rep *Report) *c16L1Result {
 	// pass 1: generate history + probes on a live instance
 	sc := NewL1Scenario(seed, id, nil)
 	sc.wts = c16Weights()
-	if scripted {
-		sc.c16Prefix()
+	if prefix != nil {
+		prefix(sc)
 	}
 	for i := 0; i < histLen; i++ {
 		sc.RandomStep()
@@ -211,6 +211,11 @@ func runC16L1(seed uint64, id int, histLen, probeLen int, scripted bool, rep *Re
 	if err != nil || !bytes.Equal(json1, json2) {
 		viol(nHist, "C16:l1-reexport-differs", "export after import differs from the first export", map[string]string{"first": string(json1), "second": string(json2)})
 	}
+	// the ORIGINAL chain's complete collections, read entry by entry with explicit page limits,
+	// against the re-imported chain's (a truncated export re-exports identically)
+	if v1, v2 := l1FullView(e), l1FullView(e3); v1 != v2 {
+		viol(nHist, "C16:l1-probe-differs", "the stored collections (bridges, counters, outputs, token pairs, batch infos, claim records read entry by entry) of the re-imported instance differ from the original's: "+firstDiff(v1, v2), nil)
+	}
 	// identical probe sequence on the original and on the re-imported instance
 	tr := sc2.Case.Track
 	for i := nHist; i < len(all); i++ {
@@ -228,9 +233,12 @@ func runC16L1(seed uint64, id int, histLen, probeLen int, scripted bool, rep *Re
 			internOff = true
 			d := map[string]string{"original": e.L1Obs(tr, r1).Coq(), "reimported": e3.L1Obs(tr, r2).Coq(), "probe": o.Coq(), "err1": r1.Err, "err2": r2.Err}
 			internOff = false
-			viol(i, "C16:l1-probe-differs", "a probe message is answered differently by the re-imported instance", d)
+			viol(i+1, "C16:l1-probe-differs", "a probe message is answered differently by the re-imported instance", d)
 			break
 		}
+	}
+	if v1, v2 := l1FullView(e), l1FullView(e3); v1 != v2 && len(rep.Violations) == 0 {
+		viol(len(all), "C16:l1-probe-differs", "after the probe sequence the stored collections of the two instances differ: "+firstDiff(v1, v2), nil)
 	}
 	rep.Ops += len(all)
 	return res
@@ -267,7 +275,11 @@ func genC16(seed uint64, tier, outdir string) *Report {
 		if k%6 == 5 {
 			hl = histLen / 5 // young states: bridges without deposits or outputs (absent counters)
 		}
-		r := runC16L1(seed*100003+uint64(k), id, hl, probeLen, k%3 == 1, rep)
+		var prefix func(sc *L1Scenario)
+		if k%3 == 1 {
+			prefix = func(sc *L1Scenario) { sc.c16Prefix() }
+		}
+		r := runC16L1(seed*100003+uint64(k), id, hl, probeLen, prefix, rep)
 		c := r.Case
 		rep.CountCase(strings.Join(l1OpsHuman(c.Ops), "\n"), r.NonTrivial)
 		if k == 0 {
@@ -282,6 +294,17 @@ func genC16(seed uint64, tier, outdir string) *Report {
 		texts = append(texts, c.Coq())
 	}
 	writeShards(outdir, "C16", genCaseHeader, "G1.run_gen1", "l1case", texts, 12, rep)
+	// collections larger than a default page: two scripted cases, each in its own case file
+	var big []string
+	for j, pf := range []func(sc *L1Scenario){func(sc *L1Scenario) { sc.c16BigA() }, func(sc *L1Scenario) { sc.c16BigB() }} {
+		r := runC16L1(seed*100003+900000+uint64(j), n+1+j, 8, 12, pf, rep)
+		c := r.Case
+		rep.CountCase(strings.Join(l1OpsHuman(c.Ops), "\n"), r.NonTrivial)
+		rep.Hist("l1-state:big-collections-case")
+		c.Obs = []Ov{r.Export, obool(true), ol(r.Export, obool(true))}
+		big = append(big, c.Coq())
+	}
+	writeShards(outdir, "C16big", genCaseHeader, "G1.run_gen1", "l1case", big, len(big), rep)
 	return rep
 }
 
